@@ -152,7 +152,7 @@ theorem late_inputs_inert_after_end (is1 is2 : List Inp) (ok : Bool)
 results entry still waits for a result — when no slot is unresolved any more (every outstanding event has been consumed:
 delivered or dropped) it is gone … -/
 theorem drained_when_quiet (is : List Inp) (he : (run Quirks.none init is).1.ended.isSome = true)
-    (hq : ∀ x ∈ (run Quirks.none init is).1.atts, x.seen = true → x.slots.any Slot.unresolved = false) :
+    (hq : ∀ x ∈ (run Quirks.none init is).1.atts, x.seen = true → x.waits = false) :
     (run Quirks.none init is).1.hasMeta = false := by
   cases hm : (run Quirks.none init is).1.hasMeta with
   | false => rfl
@@ -195,7 +195,7 @@ theorem failure_cancels_nested (is : List Inp) (inp : Inp) (a : Nat) (e : Err)
 
 /-- the outer attempt 0 (two branches) fails and is retried while attempt 1, nested in its branch 1, has a task out -/
 def nestedRetried : List Inp :=
-  [.launch 0 2 none 0, .event 0 1 .goesOn, .launch 1 1 (some (0, 1)) 0, .event 1 0 .arm,
+  [.launch 0 2 2 none 0, .event 0 1 .goesOn, .launch 1 1 1 (some (0, 1)) 0, .event 1 0 .arm,
    .event 0 0 (.fail (.plain 1) [.retried])]
 /-- … then the nested attempt's task fails too -/
 def nestedFailsLater : List Inp := [.reply 1 0 (.fail (.plain 2) [.uncaught, .retried])]
@@ -223,8 +223,8 @@ theorem nested_survive_breaks_cancellation :
 
 /-- three levels: attempt 2 in attempt 1 in branch 1 of attempt 0; branch 0 of attempt 0 fails unhandled: the execution ends -/
 def deepThenOuterFails : List Inp :=
-  [.launch 0 2 none 0, .event 0 1 .goesOn, .launch 1 1 (some (0, 1)) 0, .event 1 0 .goesOn,
-   .launch 2 1 (some (1, 0)) 0, .event 2 0 .goesOn, .event 0 0 (.fail (.plain 1) [])]
+  [.launch 0 2 2 none 0, .event 0 1 .goesOn, .launch 1 1 1 (some (0, 1)) 0, .event 1 0 .goesOn,
+   .launch 2 1 1 (some (1, 0)) 0, .event 2 0 .goesOn, .event 0 0 (.fail (.plain 1) [])]
 /-- … then the queued event of the innermost branch is delivered -/
 def deepEventLater : List Inp := [.event 2 0 (.done 7 [true, true, true])]
 
@@ -249,9 +249,9 @@ example : (run Quirks.none init deepThenOuterFails).1.ended.isSome = true ∧ (r
     (run Quirks.none init (deepThenOuterFails ++ deepEventLater)).1.hasMeta = false := by decide
 example : (step Quirks.none (run Quirks.none init deepThenOuterFails).1 .backstop).2 = [.discard] := by decide
 /-- (vi): attempt 0 retried, attempt 3 launched in its place; a late reply for the old nested attempt 1 … -/
-example : (run Quirks.none init (nestedRetried ++ [.launch 3 2 none 1, .event 3 0 .goesOn])).1.ended = none ∧
-    deadChain (run Quirks.none init (nestedRetried ++ [.launch 3 2 none 1, .event 3 0 .goesOn])).1.atts 3 = false ∧
-    (find (run Quirks.none init (nestedRetried ++ [.launch 3 2 none 1, .event 3 0 .goesOn])).1.atts 0).map (·.terminated) = some true := by
+example : (run Quirks.none init (nestedRetried ++ [.launch 3 2 2 none 1, .event 3 0 .goesOn])).1.ended = none ∧
+    deadChain (run Quirks.none init (nestedRetried ++ [.launch 3 2 2 none 1, .event 3 0 .goesOn])).1.atts 3 = false ∧
+    (find (run Quirks.none init (nestedRetried ++ [.launch 3 2 2 none 1, .event 3 0 .goesOn])).1.atts 0).map (·.terminated) = some true := by
   decide
 example : (step Quirks.none (run Quirks.none init nestedRetried).1 (.event 0 0 (.fail (.plain 5) []))).2 = [.drop 0 0] := by
   decide
@@ -259,6 +259,16 @@ example : (step Quirks.none (run Quirks.none init nestedRetried).1 (.event 0 0 (
 example : (step Quirks.none (run Quirks.none init (deepThenOuterFails.take 6)).1 (.event 2 0 (.fail (.plain 9) []))).2 =
     [.progress 2 0, .failAttempt 2 (.plain 9), .failAttempt 1 (.plain 9), .failAttempt 0 (.plain 9), .endExecution false] := by
   decide
+
+/-- a Map of three items using MaxConcurrency 1: the join waits for the batches not launched yet and hands over once -/
+example : (run Quirks.none init [.launch 0 3 1 none 0, .event 0 0 (.done 5 [true]), .batch 0 1 2 false, .batch 0 1 2 true,
+    .event 0 1 (.done 6 [true]), .batch 0 2 3 false, .batch 0 2 3 true, .event 0 2 (.done 7 [true])]).2.filter (fun o => !o.quiet && o != .progress 0 0
+      && o != .progress 0 1 && o != .progress 0 2) = [.launched 0, .succeed 0 [5, 6, 7], .endExecution true] := by decide
+/-- … and the re-entry event of a nested Map that arrives after the enclosing attempt failed is dropped: its batch is never launched -/
+example : (run Quirks.none init [.launch 0 2 2 none 0, .event 0 1 .goesOn, .launch 1 3 1 (some (0, 1)) 0, .event 1 0 (.done 5 [true]),
+    .event 0 0 (.fail (.plain 1) []), .batch 1 1 2 false]).2 =
+    [.launched 0, .progress 0 1, .launched 1, .progress 1 0, .progress 0 0, .failAttempt 0 (.plain 1), .endExecution false,
+     .drop 1 1, .discard] := by decide
 
 end FanProto
 
